@@ -45,7 +45,7 @@ Ltac rt_unfold :=
     [bind ret raise get_items get_keys set_items set_keys fitness_of valM similarM deepcopyM bisect_rightM
      indexM delM modM floordivM run_u lift_u lift_n
      w_items w_keys w_set_items w_set_keys w_fitness w_val w_similar w_deepcopy st ref fref VW HW
-     hlen negb andb orb is_empty];
+     hlen negb andb orb];
   cbn [items keys hitems hkeys fst snd].
 
 Ltac use_eqns :=
@@ -63,7 +63,12 @@ Proof.
   unfold zlen. rewrite Nat2Z.id. cbn. apply skipn_all.
 Qed.
 
-Ltac norm := rt_unfold; rewrite ?map_id, ?py_get_0, ?py_del_slice_all; use_eqns.
+Lemma is_empty_zlen {A} (l : list A) : is_empty l = (zlen l =? 0).
+Proof. destruct l; reflexivity. Qed.
+
+Ltac norm :=
+  rt_unfold; rewrite ?map_id, ?py_get_0, ?py_del_slice_all, ?is_empty_zlen;
+  repeat (progress use_eqns; rt_unfold).
 
 (* the next things the two sides inspect are the same operation on integer expressions that are equal by linear
    arithmetic (n - 1 - k  for  n - (k + 1), ...): make them syntactically equal *)
@@ -79,6 +84,27 @@ Ltac crush_with rew :=
           | |- ?l = ?r => first [ progress rew | align l r | destruct_head l | destruct_head r ]
           end);
   norm; try reflexivity; try congruence; try solve [ repeat (f_equal; try lia) ].
+
+
+(* range(len(l)) and l[i] *)
+Lemma py_range_len {B} (l : list B) : py_range3 0 (zlen l) 1 = map (fun k => Z.of_nat k) (seq 0 (length l)).
+Proof.
+  unfold py_range3, range_count, zlen. cbn [Z.ltb Z.compare].
+  replace (Z.to_nat (if 0 <? Z.of_nat (length l) then (Z.of_nat (length l) - 0 - 1) / 1 + 1 else 0)) with (length l).
+  - apply map_ext. intros k. lia.
+  - destruct (0 <? Z.of_nat (length l)) eqn:E.
+    + rewrite Z.div_1_r. lia.
+    + apply Z.ltb_ge in E. destruct l; [reflexivity|cbn [length] in E; lia].
+Qed.
+
+Lemma py_get_mid {B} (p : list B) y r : py_get (p ++ y :: r) (zlen p) = Some y.
+Proof.
+  unfold py_get, zlen. rewrite app_length. cbn [length].
+  replace (Z.of_nat (length p) <? 0) with false by (symmetry; apply Z.ltb_ge; lia).
+  replace (Z.of_nat (length p) <? 0) with false by (symmetry; apply Z.ltb_ge; lia).
+  replace (Z.of_nat (length p + S (length r)) <=? Z.of_nat (length p)) with false by (symmetry; apply Z.leb_gt; lia).
+  cbn [orb]. rewrite Nat2Z.id. induction p as [|b0 p IH]; [reflexivity|exact IH].
+Qed.
 
 
 (* ---------------------------------------------------------------------------------------------- *)
@@ -112,6 +138,25 @@ Section Loops.
     intros H l; induction l as [|y l IH]; intros u; cbn.
     - destruct u; reflexivity.
     - unfold bind. rewrite H. destruct (p y); cbn; [reflexivity|apply IH].
+  Qed.
+
+  (* the same scan written over the positions:  for j in range(len(l)): if p(l[j]): break *)
+  Lemma scan_any_idx {A} (p : A -> bool) (body : Z -> unit -> M (ctl unit)) (s : st W) (l : list A) :
+    (forall i y u, py_get l i = Some y -> body i u s = Some ((if p y then Break tt else Next tt), s)) ->
+    forall u, for_ctl (py_range3 0 (zlen l) 1) body u s = Some ((if existsb p l then Break tt else Next tt), s).
+  Proof.
+    intros H u. rewrite py_range_len.
+    assert (G : forall r q u, l = q ++ r ->
+              for_ctl (map (fun k => Z.of_nat k) (seq (length q) (length r))) body u s
+              = Some ((if existsb p r then Break tt else Next tt), s)).
+    { induction r as [|y r IH]; intros q u0 E; cbn [length seq map for_ctl existsb].
+      - destruct u0; reflexivity.
+      - unfold bind. rewrite (H (Z.of_nat (length q)) y u0) by (rewrite E; apply py_get_mid).
+        destruct (p y); cbn; [reflexivity|].
+        specialize (IH (q ++ [y]) tt). rewrite app_length in IH. cbn [length] in IH.
+        replace (length q + 1)%nat with (S (length q)) in IH by lia.
+        apply IH. rewrite E, <- app_assoc. reflexivity. }
+    apply (G l [] u). reflexivity.
   Qed.
 
   Lemma any_existsb {A} (p : A -> bool) (f : A -> M bool) (s : st W) :
@@ -169,6 +214,25 @@ Section Scan.
     unfold bind. rewrite H. destruct (scan1 i y v); cbn; [apply IH|reflexivity|reflexivity].
   Qed.
 
+  (* the same loop written over the positions:  for i in range(len(l)): y = l[i]; ...  *)
+  Lemma scan_loop_idx {W : World} (body : Z -> S4 -> M (ctl S4)) (s : st W) (l : list A) :
+    (forall i y v, py_get l i = Some y -> body i v s = Some (scan1 i y v, s)) ->
+    forall v, for_ctl (py_range3 0 (zlen l) 1) body v s = Some (scan_ctl l 0 v, s).
+  Proof.
+    intros H v. rewrite py_range_len.
+    assert (G : forall r p v, l = p ++ r ->
+              for_ctl (map (fun k => Z.of_nat k) (seq (length p) (length r))) body v s
+              = Some (scan_ctl r (zlen p) v, s)).
+    { induction r as [|y r IH]; intros p v0 E; cbn [length seq map for_ctl scan_ctl]; [reflexivity|].
+      unfold bind. rewrite (H (Z.of_nat (length p)) y v0) by (rewrite E; apply py_get_mid).
+      fold (zlen p). destruct (scan1 (zlen p) y v0); cbn; [|reflexivity|reflexivity].
+      specialize (IH (p ++ [y]) s0). rewrite app_length in IH. cbn [length] in IH.
+      replace (length p + 1)%nat with (S (length p)) in IH by lia.
+      rewrite IH by (rewrite E, <- app_assoc; reflexivity).
+      unfold zlen. rewrite app_length. cbn [length]. do 3 f_equal. lia. }
+    apply (G l [] v). reflexivity.
+  Qed.
+
   Lemma scan_ctl_spec : forall hs i d1 tr,
     match scan_ctl hs i (false, d1, tr, false) with
     | Next (isd, _, tr', tw) | Break (isd, _, tr', tw) => pf_scan A fit sim x hs i d1 tr = (isd, tw, tr')
@@ -217,6 +281,8 @@ Section Value.
   (* the similarity scan of HallOfFame.update, as a for/else or as any(...) *)
   Ltac scan_sim x :=
     match goal with
+    | |- context [for_ctl (py_range3 0 (zlen ?l) 1) ?b ?u ?s] =>
+        rewrite (@scan_any_idx VWi _ (similar x) b s l) by (intros; crush_with rew_m)
     | |- context [for_ctl ?l ?b ?u ?s] =>
         rewrite (@scan_any VWi _ (similar x) b s) by (intros; crush_with rew_m)
     | |- context [anyM ?f ?l ?s] =>
@@ -243,6 +309,9 @@ Section Value.
     | |- context [for_ctl (enumerate_from ?i ?l) ?b ?v ?s] =>
         rewrite (@scan_loop ind fitness similar x VWi b s)
           by (intros ? ? [[[? ?] ?] ?]; unfold scan1; crush_with rew_m)
+    | |- context [for_ctl (py_range3 0 (zlen ?l) 1) ?b ?v ?s] =>
+        rewrite (@scan_loop_idx ind fitness similar x VWi b s l)
+          by (intros ? ? [[[? ?] ?] ?] ?; unfold scan1; crush_with rew_m)
     | |- context [scan_ctl ind fitness similar x ?hs ?i (false, ?d1, ?tr, false)] =>
         let P := fresh "P" in
         pose proof (scan_ctl_spec ind fitness similar x hs i d1 tr) as P;
@@ -352,6 +421,8 @@ Section HeapLevel.
 
   Ltac scan_sim_h x :=
     match goal with
+    | |- context [for_ctl (py_range3 0 (zlen ?l) 1) ?b ?u (?hp, ?a)] =>
+        rewrite (@scan_any_idx HWi _ (hsim sim hp x) b (hp, a) l) by (intros; crush_with rew_h)
     | |- context [for_ctl ?l ?b ?u (?hp, ?a)] =>
         rewrite (@scan_any HWi _ (hsim sim hp x) b (hp, a)) by (intros; crush_with rew_h)
     | |- context [anyM ?f ?l (?hp, ?a)] =>
@@ -396,6 +467,9 @@ Section HeapLevel.
     | |- context [for_ctl (enumerate_from ?i ?l) ?b ?v (?hp, ?a)] =>
         rewrite (@scan_loop nat (hfit hp) (hsim sim hp) x HWi b (hp, a))
           by (intros ? ? [[[? ?] ?] ?]; unfold scan1; crush_with rew_h)
+    | |- context [for_ctl (py_range3 0 (zlen ?l) 1) ?b ?v (?hp, ?a)] =>
+        rewrite (@scan_loop_idx nat (hfit hp) (hsim sim hp) x HWi b (hp, a) l)
+          by (intros ? ? [[[? ?] ?] ?] ?; unfold scan1; crush_with rew_h)
     | |- context [scan_ctl nat ?f ?g x ?hs ?i (false, ?d1, ?tr, false)] =>
         let P := fresh "P" in
         pose proof (scan_ctl_spec nat f g x hs i d1 tr) as P;
